@@ -16,7 +16,9 @@
      [E2]  Positive replies are suppressed iff the suppress bit is set while
            negative ones never are,
      [E3]  session and security state change exactly on the positive replies
-           that ISO defines,
+           that ISO defines,  (hence not between two requests, whatever happens
+           to tester connections meanwhile -- but for ISO's own session
+           time-out: [E3-between], StepVerdictEG)
      [E4]  and disabling one behaviour only removes that rule."
    C14: "[A1] neither raises nor drops the connection, [A2] stays in a session
    it offers, [A3] what it sends back is a well-formed UDS response that
@@ -217,12 +219,32 @@ StepVerdictE(V, B, before, x) ==
                                 ELSE "E2/positive-not-suppressed"
   ELSE "E3/state-update"
 
+\* [E3-between] "session and security state change EXACTLY on the positive replies that ISO defines": between two
+\* requests nothing is answered, so nothing may change -- whatever happens to tester connections in between
+\* (a tester hangs up, another one connects, the server drops a connection) is not a positive reply.  The one
+\* exception ISO itself defines is the session time-out (ISO 14229-2, S3server = 5 s; gallia's virtual ECU uses
+\* 10 s): a request that arrives `gap` seconds (of the server's clock) after the previous request may find the server
+\* EITHER in the state the history left it in OR, once gap >= S3Server, in its power-on state (default session,
+\* locked).  Which of the two is unspecified from S3Server upwards (any time-out constant >= S3server is admissible);
+\* below S3Server only the state of the history is.
+S3Server == 5
+BeforeStates(st, gap) == {st} \cup (IF gap >= S3Server THEN {Locked(DefaultSession)} ELSE {})
+StepVerdictEG(V, B, before, gap, x) ==
+  IF StepVerdictE(V, B, before, x) = "ok" THEN "ok"
+  ELSE IF \E b \in BeforeStates(before, gap) : StepVerdictE(V, B, b, x) = "ok" THEN "ok"
+  \* diagnosis only: the exchange is exactly what a server in its power-on state would do, but no time-out can
+  \* have happened -- the state was lost between two requests
+  ELSE IF x.raised = "" /\ before # Locked(DefaultSession)
+          /\ StepVerdictE(V, B, Locked(DefaultSession), x) = "ok"
+       THEN "E3/state-falls-back-between-requests-without-positive-reply-or-timeout"
+  ELSE StepVerdictE(V, B, before, x)
+
 ChainRuleNames == {"R1a/serviceNotSupported", "R1b/serviceNotSupportedInActiveSession", "R2/missingSubFunction",
                    "R3/subFunctionNotSupported", "R3/subFunctionNotSupportedInActiveSession", "R4/incorrectFormat",
                    "sessionChange", "sessionRead", "testerPresent", "serviceSpecific"}
 E1Labels == {"E1/" \o r : r \in ChainRuleNames} \cup {"E1/raises-instead-of-answering"}
 E2Labels == {"E2/negative-or-unset-bit-suppressed", "E2/positive-not-suppressed"}
-E3Labels == {"E3/state-update"}
+E3Labels == {"E3/state-update", "E3/state-falls-back-between-requests-without-positive-reply-or-timeout"}
 E4Labels == {"E4/rule-off-raises"}
 
 \* was any admissible explanation one that needed an `unspecified` option?
